@@ -4,6 +4,7 @@ import (
 	"fmt"
 	"math"
 	"math/big"
+	"math/bits"
 	"testing"
 
 	"github.com/apmckinlay/gsuneido/util/dnum"
@@ -134,9 +135,13 @@ func genDspec(t *rapid.T, label string) dspec {
 // the exponent range limits are actually reached.
 func genPair(t *rapid.T) (dspec, dspec, string) {
 	x := genDspec(t, "x")
-	cls := gen.Pick(t, "pcls", []string{"indep", "align", "align", "cancel", "range_mul", "range_div", "same", "pow10_edge"})
+	cls := c27PairClasses[gen.Weighted(t, "pcls", c27PairWeights)]
 	if cls == "pow10_edge" {
 		x, y := genPow10Edge(t)
+		return x, y, cls
+	}
+	if cls == "div_divisor_near_pow2" {
+		x, y := genDivNearPow2(t)
 		return x, y, cls
 	}
 	if x.inf != 0 || x.coef == 0 {
@@ -182,6 +187,94 @@ func genPair(t *rapid.T) (dspec, dspec, string) {
 		x, y = y, x
 	}
 	return x, y, cls
+}
+
+var c27PairClasses = []string{"indep", "align", "cancel", "range_mul", "range_div", "same", "pow10_edge", "div_divisor_near_pow2"}
+var c27PairWeights = []int{12, 24, 12, 12, 12, 12, 12, 4}
+
+// genDivNearPow2: a divisor whose 16 digit coefficient lies just below (or just
+// above) a power of two 2^50..2^53 - after the bit normalisation of the 128/64
+// bit division its high 32 bit word is next to 2^32 (or to 2^31), where the
+// quotient digit estimates need their corrections - or next to a power of two
+// times a power of ten, or next to d*10^15; the dividend is a random 16 digit
+// coefficient (the caller tries a run of neighbouring dividends as well).
+func genDivNearPow2(t *rapid.T) (x, y dspec) {
+	// eps log-uniform in 2^-24 .. 2^-6
+	shift := 6 + gen.Uniform(t, "epsbits", 19)
+	frac := func(v uint64) uint64 { // v * eps, eps = m * 2^-(shift+8), m in 128..255
+		m := uint64(128 + gen.Uniform(t, "epsmant", 128))
+		hi, lo := bits.Mul64(v, m)
+		sh := uint(shift + 8)
+		return hi<<(64-sh) | lo>>sh
+	}
+	var c uint64
+	switch gen.Weighted(t, "dcls", []int{6, 2, 1, 1}) {
+	case 0: // 2^k (1 - eps) / 2^k (1 + eps), k = 50..53: already 16 digits
+		v := uint64(1) << (50 + gen.Uniform(t, "k", 4))
+		if gen.Chance(t, "above", 25) {
+			c = v + frac(v)
+		} else {
+			c = v - 1 - frac(v)
+		}
+	case 1: // 2^k, k = 47..63, scaled by a power of ten into 16 digits
+		k := 47 + gen.Uniform(t, "k2", 17)
+		v := new(big.Int).Lsh(big.NewInt(1), uint(k))
+		v.Sub(v, new(big.Int).Rsh(v, uint(shift)))
+		for v.Cmp(new(big.Int).SetUint64(p10u[16])) >= 0 {
+			v.Quo(v, big.NewInt(10))
+		}
+		for v.Cmp(new(big.Int).SetUint64(p10u[15])) < 0 {
+			v.Mul(v, big.NewInt(10))
+		}
+		c = v.Uint64()
+	case 2: // d * 10^15 (1 ± eps)
+		v := uint64(1+gen.Uniform(t, "d", 9)) * p10u[15]
+		if rapid.Bool().Draw(t, "above") {
+			c = v + frac(v)
+		} else {
+			c = v - 1 - frac(v)
+		}
+	default: // low 32 bit word of the normalised divisor all ones / zero
+		v := rapid.Uint64Range(p10u[15], p10u[16]-1).Draw(t, "v")
+		lz := uint(bits.LeadingZeros64(v))
+		mask := uint64(1)<<(32-lz) - 1
+		if rapid.Bool().Draw(t, "ones") {
+			c = v | mask
+		} else {
+			c = v &^ mask
+		}
+	}
+	c = max(p10u[15], min(p10u[16]-1, c))
+	y = dspec{neg: rapid.Bool().Draw(t, "yneg"), coef: c, e: gen.Uniform(t, "ye", 60) - 30}
+	x = dspec{neg: rapid.Bool().Draw(t, "xneg"), coef: rapid.Uint64Range(p10u[15], p10u[16]-1).Draw(t, "xc"), e: gen.Uniform(t, "xe", 60) - 30}
+	return
+}
+
+// divCorrections is an own model of the two quotient digit estimates of a
+// 128/64 bit schoolbook division of xc*10^16 by yc (Knuth D with 32 bit digits):
+// it reports by how much the first and the second digit estimate exceed the
+// true digits. Used only to label (and aim) the generated cases.
+func divCorrections(xc, yc uint64) (d1, d0 uint64) {
+	hi, lo := bits.Mul64(xc, p10u[16])
+	s := uint(bits.LeadingZeros64(yc))
+	dn := yc << s
+	if s > 0 {
+		hi, lo = hi<<s|lo>>(64-s), lo<<s
+	}
+	v1 := dn >> 32
+	// first digit: (hi : top 32 bits of lo) / dn
+	q1true, r := bits.Div64(hi>>32, hi<<32|lo>>32, dn)
+	q1est := hi / v1
+	if q1est > q1true {
+		d1 = q1est - q1true
+	}
+	// second digit: (r : low 32 bits of lo) / dn
+	q0true, _ := bits.Div64(r>>32, r<<32|lo&0xffffffff, dn)
+	q0est := r / v1
+	if q0est > q0true {
+		d0 = q0est - q0true
+	}
+	return
 }
 
 // genPow10Edge draws operands whose exact product, quotient or sum lies at a
@@ -451,6 +544,45 @@ func TestC27(t *testing.T) {
 			t.Fatalf("New for %v gives %v, want %v", xs, got, x)
 		}
 		finite := x.inf == 0 && y.inf == 0 && x.r.Sign() != 0 && y.r.Sign() != 0
+		if cls == "div_divisor_near_pow2" {
+			// a run of dividends against the same divisor; those whose digit
+			// estimates need a correction (own model) are counted
+			step := rapid.Uint64Range(1, p10u[15]/64).Draw(t, "xstep")
+			at := func(i uint64) uint64 { return p10u[15] + (xs.coef-p10u[15]+i*step)%(9*p10u[15]) }
+			cands := make([]uint64, 0, 48)
+			for i := uint64(0); i < 24; i++ {
+				cands = append(cands, at(i))
+			}
+			// scan further dividends with the own model for the rare ones whose
+			// first digit estimate is too large
+			for i := uint64(24); i < 6000 && len(cands) < 40; i++ {
+				if d1, _ := divCorrections(at(i), ys.coef); d1 > 0 {
+					cands = append(cands, at(i))
+				}
+			}
+			for _, xc := range cands {
+				x2 := xs
+				x2.coef = xc
+				d1, d0 := divCorrections(x2.coef, ys.coef)
+				fail, known, _, _ := c27Check('/', x2, ys)
+				if known != "" && skipKnown(known) {
+					continue
+				}
+				if fail != "" {
+					t.Fatalf("%s (digit estimate corrections by own model: first %d, second %d)", fail, d1, d0)
+				}
+				rec.Case(true, fmt.Sprintf("%v / %v", x2, ys))
+				rec.Label("div_divisor_near_pow2_divides")
+				rec.LabelIf(d1 > 0, "div_first_digit_correction")
+				rec.LabelIf(d1 > 1, "div_first_digit_correction_twice")
+				rec.LabelIf(d0 > 0, "div_second_digit_correction")
+				rec.LabelIf(d0 > 1, "div_second_digit_correction_twice")
+			}
+		} else if finite && xs.inf == 0 && ys.inf == 0 {
+			d1, d0 := divCorrections(xs.coef*p10u[16-ndigits(xs.coef)], ys.coef*p10u[16-ndigits(ys.coef)])
+			rec.LabelIf(d1 > 0, "div_first_digit_correction")
+			rec.LabelIf(d0 > 0, "div_second_digit_correction")
+		}
 		for _, op := range c27ops {
 			fail, known, v, judged := c27Check(op, xs, ys)
 			canon := fmt.Sprintf("%v %c %v", xs, op, ys)
@@ -680,6 +812,14 @@ func FuzzC27(f *testing.F) {
 	f.Add(uint64(1), int8(-64), false, uint64(1), int8(-63), false, uint8(2))
 	f.Add(uint64(7), int8(127), false, uint64(7), int8(127), false, uint8(2))
 	f.Add(uint64(1234567890123456), int8(3), true, uint64(9876543219876543), int8(-20), false, uint8(1))
+	// divisors just below 2^50..2^53 (quotient digit corrections of the 128 bit division)
+	f.Add(uint64(9620467036358519), int8(16), false, uint64(1125113108267332), int8(16), false, uint8(3))
+	f.Add(uint64(9823435550186620), int8(1), false, uint64(1124478067140456), int8(4), false, uint8(3))
+	f.Add(uint64(8963112368636409), int8(-14), true, uint64(1122880259073983), int8(21), false, uint8(3))
+	f.Add(uint64(7777777777777777), int8(0), false, uint64(1)<<51-12345, int8(0), false, uint8(3))
+	f.Add(uint64(3141592653589793), int8(5), false, uint64(1)<<52-987654321, int8(-5), true, uint8(3))
+	f.Add(uint64(2718281828459045), int8(9), false, uint64(1)<<53-4242424242, int8(2), false, uint8(3))
+	f.Add(uint64(1000000000000001), int8(1), false, uint64(1)<<50+99, int8(1), false, uint8(3))
 	known := map[string]bool{}
 	for _, e := range kf.All("C27") {
 		known[e.Key] = true
